@@ -248,9 +248,8 @@ Proof.
   set (s0 := with_sigs s []).
   destruct e; try discriminate; cbn [fst].
   - unfold do_apply.
-    destruct ((match slot with Some b => b | None => putlocks s0 end) && (LaxSem.value (sem s0) =? 0));
-      [apply Quiet_refl|].
-    destruct (negb (pstate s0 =? 0)); [apply Quiet_refl|]. cbn [fst].
+    destruct (negb (pstate s0 =? 0)); [apply Quiet_refl|].
+    destruct ((match slot with Some b => b | None => putlocks s0 end) && (LaxSem.value (sem s0) =? 0)); [apply Quiet_refl|]. cbn [fst].
     destruct (match slot with Some b => b | None => putlocks s0 end).
     + eapply Quiet_trans; [apply (Quiet_same s0 (with_sem s0 (sstep' (sem s0) Acquire))); reflexivity|].
       apply Quiet_add_job. reflexivity.
